@@ -23,9 +23,13 @@ CLOADS = ["_pickle", "loads"]
 GOOD = [["collections", "OrderedDict"], ["numpy", "dtype"], ["torch", "Size"]]
 BADG = [SINK, ["fractions", "Fraction"], ["collections", "Counter"], ["torch", "is_tensor"], ["decimal", "Decimal"],
         # qualified names hanging off an allow-listed object (STACK_GLOBAL, protocol 4): not in the allowlist
-        ["collections", "OrderedDict.fromkeys"], ["torch", "Size.count"]]
+        ["collections", "OrderedDict.fromkeys"], ["torch", "Size.count"],
+        # the name one addition permits, looked up in the module of another addition (fractions re-exports Decimal)
+        ["fractions", "Decimal"], ["decimal", "Context"]]
 ADDS = [None, ["pickle.loads", "_pickle.loads"], ["_pickle.loads", "fractions.Fraction"],
-        ["pickle.loads", "verif_sink.record"]]
+        ["pickle.loads", "verif_sink.record"],
+        # two additions in two modules the allowlist does not know: each permits exactly its own pair
+        ["fractions.Fraction", "decimal.Decimal"]]
 ENTRY_KIND = {"pl": "pickle.load", "pls": "pickle.loads", "cl": "_pickle.load", "cls": "_pickle.loads"}
 LEGACY_RETS = ["magic", "proto", "dict", "none", "list"]
 KNOWN_SIGS = ["torch.storage._load_from_bytes/legacy", "torch.storage._load_from_bytes/zip"]
@@ -141,6 +145,19 @@ def grid_cases(table):
                             evs = [glob_ev(GOOD[1], ids), call_ev(table, wc, wct, [evs], ids)]
                         out.append({"tree": {"k": ENTRY_KIND[entry], "ret": "none", "evs": evs},
                                     "entry": entry, "adds": ai})
+    # exactness of the additions: with two additions in two unknown modules, each addition's own pair is
+    # permitted and every other pairing of those modules and names is refused -- flat and one level down
+    own = [["fractions", "Fraction"], ["decimal", "Decimal"]]
+    for entry in ENTRY_KIND:
+        for ai in range(len(ADDS)):
+            for g in own + [["fractions", "Decimal"], ["decimal", "Context"], BADG[2]]:
+                for wrap in (0, 1):
+                    ids = Ids()
+                    evs = [glob_ev(GOOD[0], ids), glob_ev(own[0], ids), glob_ev(g, ids), glob_ev(GOOD[2], ids)]
+                    if wrap:
+                        evs = [glob_ev(GOOD[1], ids), call_ev(table, LFB, "bare", [evs], ids)]
+                    out.append({"tree": {"k": ENTRY_KIND[entry], "ret": "none", "evs": evs},
+                                "entry": entry, "adds": ai})
     return out
 
 
